@@ -819,8 +819,8 @@ where
     };
     let t0 = Instant::now();
     let mut seen: HashSet<(u64, u64)> = HashSet::new();
-    // model state -> first history reaching it
-    let mut reps: BTreeMap<String, Vec<u16>> = BTreeMap::new();
+    // model state -> (discovery rank, first history reaching it)
+    let mut reps: BTreeMap<String, (usize, Vec<u16>)> = BTreeMap::new();
     let mut crash = CrashTally::default();
     let mut execs = 0u64;
 
@@ -837,7 +837,7 @@ where
     }
     seen.insert(root.key);
     out.states += 1;
-    reps.insert(root.model_key.clone(), vec![]);
+    reps.insert(root.model_key.clone(), (0, vec![]));
     let root_key = root.key;
     let mut frontier: Vec<Vec<u16>> = vec![vec![]];
     out.frontier_sizes.push(1);
@@ -910,7 +910,8 @@ where
                 } else {
                     out.dedup_hits += 1;
                 }
-                reps.entry(c.model_key.clone()).or_insert_with(|| hist.clone());
+                let rank = reps.len();
+                reps.entry(c.model_key.clone()).or_insert_with(|| (rank, hist.clone()));
                 if fresh || !x.dedup {
                     frontier.push(hist);
                 }
@@ -934,7 +935,10 @@ where
 
     // deep battery: once per distinct model state, on its representative history
     if x.deep_depth > 0 && out.violations == 0 {
-        let items: Vec<(String, Vec<u16>)> = reps.into_iter().collect();
+        // discovery (BFS) order: when the time cap cuts the phase short, the
+        // states reached by the shortest histories have been checked
+        let mut items: Vec<(usize, Vec<u16>)> = reps.into_values().collect();
+        items.sort();
         let stop2 = AtomicBool::new(false);
         let t1 = Instant::now();
         // par_map pops from the back: reverse so that BFS order is served first
